@@ -248,6 +248,41 @@ class Node(object):
             kw["density"] = density
         return self.pt.formula(s, **kw)
 
+    @staticmethod
+    def _in_fork(fn):
+        r, w = os.pipe()
+        pid = os.fork()
+        if pid == 0:
+            try:
+                os.close(r)
+                try:
+                    res = fn()
+                except Exception as e:  # noqa: BLE001
+                    res = ["E", type(e).__name__]
+                send(w, res)
+            finally:
+                os._exit(0)
+        os.close(w)
+        try:
+            res = recv(r)
+        except EOFError:
+            res = ["E", "ForkDied"]
+        os.close(r)
+        os.waitpid(pid, 0)
+        return res
+
+    def _new_isotope(self, t, Z, A):
+        iso = t[Z].add_isotope(A)
+        keys = {}
+        g = self._get
+        for name in ("neutron", "nuclear_spin", "neutron_activation", "xray", "K_alpha", "covalent_radius",
+                     "crystal_structure", "magnetic_ff", "density", "isotope", "number", "symbol"):
+            g(keys, name, lambda name=name: getattr(iso, name))
+        g(keys, "ion.neutron", lambda: iso.ion[1].neutron)
+        g(keys, "neutron.sld", lambda: iso.neutron.sld())
+        g(keys, "same", lambda: t[Z][A] is iso and A in t[Z].isotopes)
+        return keys
+
     def ev_calc(self, tbl, which, *a):
         pt = self.pt
         t = self.table(tbl)
@@ -398,6 +433,12 @@ class Node(object):
             g += 3 * self._formula(tbl, "H2O")
             twice = 2 * g
             return canon([before, g.mass, twice.mass, base.mass, str(g)])
+        if which == "new_isotope":
+            # what a table serves for an isotope that is added only now (add_isotope is what the
+            # loaders themselves use).  Evaluated in a throw-away fork of this interpreter: it is an
+            # observation of the present loader state and must not become part of the history.
+            Z, A = a
+            return self._in_fork(lambda: self._new_isotope(t, Z, A))
         if which == "show_table":
             s, mass = a[:2]
             act = self.module("periodictable.activation")
